@@ -723,7 +723,46 @@ def resolve(ctx, res, pend):
                                            str((mo, mv))[:600], str((fev, view1))[:600]))
 
 
+def run_removed_self(ctx, res: Result):
+    """The synthetic buffer winapi builds when the watched directory itself is deleted, end to end:
+    _generate_observed_path_deleted_event -> _parse_event_buffer -> queue_events = DirDeletedEvent(root) + stop."""
+    from harness import shims
+    winapi = shims.winapi()
+    buf, n = winapi._generate_observed_path_deleted_event()
+    got = [(a, s_) for a, s_ in winapi._parse_event_buffer(buf, n)]
+    out = core.run_model("codecwin", [sx([Atom("parse"), Atom("le"), buf[:64], n])])[0]
+    mo = [(int(a), "".join(chr(int(c)) for c in nm)) for a, nm in out[1]] if isinstance(out, list) and out[0] == "ok" else out
+    res.evaluations += 1
+    res.traces_validated += 1
+    if mo != got:
+        res.mismatches.append(Mismatch("CodecWin.parse vs _parse_event_buffer on _generate_observed_path_deleted_event()", buf[:n].hex(), str(mo), str(got)))
+    if got != [(0xFFFE, ".")]:
+        res.failures.append(Failure(what="observed-path-deleted buffer does not decode to (FILE_ACTION_DELETED_SELF, '.')",
+                                    case={"emitter": "windows", "buffer": buf[:n].hex()},
+                                    signature={"fn": "winapi._generate_observed_path_deleted_event", "law": "roundtrip"},
+                                    observed=str(got), expected="[(65534, '.')]"))
+    tmp = os.path.realpath(tempfile.mkdtemp(prefix="wds", dir="/dev/shm" if os.path.isdir("/dev/shm") else None))
+    try:
+        for rec in (True, False):
+            d = WinDriver(tmp, rec)
+            evs = [ev_tuple(e) for e in d.feed([(0xFFFE, ".")])]
+            stopped = not d.em.should_keep_running()
+            out = core.run_model("platemit", [sx([Atom("winemit"), rec, tmp.encode(), [[0xFFFE, b"."]], []])])[0]
+            mo = ([model_ev(e) for e in out[0]], out[1] == "1") if isinstance(out, list) and len(out) == 2 else out
+            res.evaluations += 1
+            res.traces_validated += 1
+            if mo != (evs, stopped):
+                res.mismatches.append(Mismatch("WinEmitter.queue_events vs WindowsApiEmitter.queue_events (REMOVED_SELF)", tmp, str(mo), str((evs, stopped))))
+            if evs != [("D", "D", tmp)] or not stopped:
+                res.failures.append(Failure(what="deletion of the watched directory is not reported as DirDeletedEvent(root) + stop",
+                                            case={"emitter": "windows", "natives": [[0xFFFE, "."]]},
+                                            signature={"emitter": "windows", "law": "removed-self"}, observed=str((evs, stopped))))
+    finally:
+        shutil.rmtree(tmp, ignore_errors=True)
+
+
 def run(ctx, res: Result):
+    run_removed_self(ctx, res)
     for c in ctx.corpus():
         c = c.get("case", c)
         if c.get("emitter"):
